@@ -92,7 +92,7 @@ class C05(Plugin):
     pid = "C05"
     entry = 5
     prop = 5
-    counts = {"quick": 700, "thorough": 30000}
+    counts = {"quick": 700, "thorough": 100000}
     rule = ("case = (start records of a strict converter, delimiter, history of 1..12 add_record / add_prefix operations with every flag "
             "combination, probe strings and pairs, casefold table of the characters used); new records are fresh, overlap an existing record on "
             "the CURIE side, the URI side, both, only up to case (swapcase / upper / sharp-s foldings), bridge two records, or duplicate one. "
